@@ -37,7 +37,7 @@ def groups(L, which=None, action="{ }", long_inputs=False):
 
 def jobs_for(tier):
     quick = tier == "quick"
-    L = 5 if quick else 6
+    L = 5 if quick else 8
     allcomp = {"VF_READ_CHOICES": 8, "VF_FREE_READ": 1, "VF_BUDGET_READ": 99, "VF_BUDGET_DEFAULT": 0, "VF_BUDGET_TOTAL": 0}
     sizes = "0,1,2,3,4,5,8"
     jobs = []
